@@ -1,11 +1,13 @@
 import Driver.Util
 import Driver.Bip
 import Driver.Loop
+import Driver.Mirrored
 
 open Driver
 
 def components : List (String × (Script → Result)) :=
   [("bip", Driver.Bip.check),
-   ("loop", Driver.Loop.check)]
+   ("loop", Driver.Loop.check),
+   ("mirrored", Driver.Mirrored.check)]
 
 def main (args : List String) : IO UInt32 := Driver.mainWith components args
